@@ -1124,3 +1124,56 @@ def rand_approx(cx):
 
         cx.check("subsystem entropy / trace-sqrt / log-negativity estimators within 30 % of the exact values (8 qubits, loose sanity band, fixed random stream)",
                  dict(case=case, na=na), t)
+
+
+@driver("C17", "projected-subspace", chunks=4, timeout=240,
+        bound="partial Hermitian eigenproblem restricted to a subspace given by an isometry P (d x m, real and genuinely complex): "
+              "d in {24, 60, 120}, m in {8, 20}, k in {1, 3}, backends numpy / scipy / lobpcg / AUTO, A dense qarray | csr | "
+              "LinearOperator (scipy); reference numpy.linalg.eigh of P^H A P")
+def projected_subspace(cx):
+    import quimb as qu
+    import scipy.sparse as sp
+    import scipy.sparse.linalg as spla
+    from quimb.linalg.base_linalg import eigensystem_partial
+
+    rng = cx.rng
+    ds = (24, 60) if cx.quick else (24, 60, 120)
+    for d, m, backend, k, cplx, rep in itertools.product(ds, (8, 20), ("numpy", "scipy", "lobpcg", "AUTO"), (1, 3), (True, False),
+                                                         ("qarray", "csr", "linop")):
+        x = rng.normal(size=(d, d)) + 1j * rng.normal(size=(d, d))
+        A = (x + x.conj().T) / 2
+        y = rng.normal(size=(d, m)) + (1j * rng.normal(size=(d, m)) if cplx else 0.0)
+        P = np.linalg.qr(y)[0]
+        if rep == "linop" and backend in ("numpy", "AUTO"):
+            continue
+        if rep != "qarray" and backend == "numpy":
+            continue
+        if not cx.mine():
+            continue
+        if cx.out_of_time():
+            cx.inconclusive.append("projected-subspace: time budget exhausted")
+            return
+
+        def t(A=A, P=P, k=k, backend=backend, rep=rep, d=d):
+            Ar = {"qarray": lambda: qu.qarray(A), "csr": lambda: sp.csr_matrix(A),
+                  "linop": lambda: spla.aslinearoperator(A)}[rep]()
+            Pr = qu.qarray(P)
+            lk, vk = eigensystem_partial(Ar, k, isherm=True, which="SA", backend=backend, P=Pr)
+            lk, vk = np.asarray(lk), np.asarray(vk)
+            M = P.conj().T @ A @ P
+            lam = np.linalg.eigvalsh(M)[:k]
+            tol = 2e-3 if backend == "lobpcg" else 1e-8
+            if vk.shape != (d, k):
+                return f"vectors of shape {vk.shape}, expected {(d, k)} (mapped back to the full space)"
+            if not np.allclose(np.sort(lk.real), lam, atol=tol * max(1.0, np.abs(lam).max())) or np.abs(np.imag(lk)).max() > tol:
+                return f"eigenvalues {lk} are not the {k} smallest of P^H A P = {lam}"
+            if np.linalg.norm(P @ (P.conj().T @ vk) - vk) > 1e-8 * max(1.0, np.linalg.norm(vk)):
+                return "returned vectors do not lie in the range of P"
+            if np.linalg.norm(vk.conj().T @ vk - np.eye(k)) > 10 * tol:
+                return f"returned vectors not orthonormal (defect {np.linalg.norm(vk.conj().T @ vk - np.eye(k)):.2e})"
+            res = np.linalg.norm(P @ (P.conj().T @ (A @ vk))[:, np.argsort(lk.real)] - vk[:, np.argsort(lk.real)] * lam[None, :])
+            if res > (30 * np.sqrt(tol) if backend == "lobpcg" else 1e-6) * max(1.0, np.abs(A).max()):
+                return f"projected eigen-equation P P^H A v = lambda v violated (residual {res:.2e})"
+
+        cx.check("eigensystem_partial(P=isometry): eigenpairs of the compression P^H A P, vectors mapped back by P",
+                 dict(d=d, m=m, backend=backend, k=k, complex_P=cplx, rep=rep), t)
